@@ -37,7 +37,11 @@ inductive Wrapper where
 
 /-- Scripted behaviour of the external program. -/
 inductive Tool where
-  | ok | reorder | garbageEmpty | garbageRagged | garbageMissing | garbageLength | garbageTree | exit3 | hang | missing
+  | ok | reorder | garbageEmpty | garbageRagged | garbageMissing | garbageLength | garbageTree
+  | exit3      -- exits with code 3
+  | sigkill    -- writes complete, valid output, then dies by a signal (return code -9)
+  | hang
+  | missing | isdir | nulbyte   -- cannot be launched: FileNotFoundError / PermissionError / ValueError (not an OSError)
   deriving DecidableEq, Repr
 
 inductive Child where
@@ -197,7 +201,17 @@ inductive Res where
 
 def errTimeout : Err := .other "TimeoutError"
 def errSubprocess : Err := .other "SubprocessError"
-def errLaunch : Err := .other "FileNotFoundError"
+/-- The program cannot be launched (`Popen` raises). -/
+def launchFails (t : Tool) : Bool := t = .missing ∨ t = .isdir ∨ t = .nulbyte
+
+/-- What `Popen` raises for an unlaunchable program. -/
+def errLaunch : Tool → Err
+  | .isdir => .other "PermissionError"
+  | .nulbyte => .valueError
+  | _ => .other "FileNotFoundError"
+
+/-- The program ends with a failing exit status: `returncode != 0` (positive exit code *or* negative: killed by a signal). -/
+def failingExit (t : Tool) : Bool := t = .exit3 ∨ t = .sigkill
 def errEval : Err := .other "EvalFailure"
 
 /-- Temp files created by `__init__` (NamedTemporaryFile(delete=False)). -/
@@ -282,15 +296,15 @@ def badLengths (t : Tool) : Bool := t = .garbageRagged ∨ t = .garbageLength
 def evaluate (s : St) : Except Err (Option (List Nat × List Nat)) :=
   match s.w with
   | .base =>
-    if s.tool = .exit3 then .error errSubprocess
+    if failingExit s.tool then .error errSubprocess
     else if s.tool = .garbageEmpty ∨ s.tool = .garbageRagged ∨ s.tool = .garbageMissing ∨ s.tool = .garbageLength
         ∨ s.tool = .garbageTree then .error errEval
     else .ok none
   | .localapp =>
-    -- LocalApp.evaluate: exit code
-    if s.tool = .exit3 then .error errSubprocess else .ok none
+    -- LocalApp.evaluate: `if exit_code != 0: raise SubprocessError`
+    if failingExit s.tool then .error errSubprocess else .ok none
   | w =>
-    if s.tool = .exit3 then .error errSubprocess else
+    if failingExit s.tool then .error errSubprocess else
     match parseOutput (toolRows s.tool s.n) (badLengths s.tool) s.n with
     | .error e => .error e
     | .ok r =>
@@ -341,10 +355,10 @@ does, so the model has no such branch — the real behaviour is checked by the o
 def startBody (s : St) : St × Res :=
   -- chdir(self._exec_dir)
   let s1 := { s with cwdChanged := s.execOther }
-  if s.tool = .missing then
-    -- Popen raises; finally: chdir(cwd)
+  if launchFails s.tool then
+    -- Popen raises (whatever the exception class); finally: chdir(cwd)
     let s2 := { s1 with cwdChanged := false }
-    (cleanUp { s2 with state := .cancelled }, .err errLaunch)
+    (cleanUp { s2 with state := .cancelled }, .err (errLaunch s.tool))
   else
     let s2 := { s1 with child := .alive }
     let s3 := { s2 with cwdChanged := false }
@@ -380,7 +394,7 @@ def methodBody (s : St) (m : String) : St × Res :=
     match s.result with
     | some (_, order) => (s, .ok (Proto.showNats order))
     | none => (s, .err (.other "AttributeError"))
-  else if m = "get_exit_code" then (s, .ok (if s.tool = .exit3 then "3" else "0"))
+  else if m = "get_exit_code" then (s, .ok (if s.tool = .exit3 then "3" else if s.tool = .sigkill then "-9" else "0"))
   else if m = "get_seqtype" then (s, .ok s.seqtype)
   else if m = "get_distance_matrix" then (if s.mbed then (s, .err .valueError) else (s, .ok ""))
   else (s, .ok "")
